@@ -102,6 +102,24 @@ fn check_size(c: &SizeCase, ctx: &mut Ctx) -> Result<(), Fail> {
                 announced,
                 buf.len()
             );
+            // a destination accepting only a few bytes per write call still receives every announced byte
+            for chunk in [1usize, 3] {
+                let d = vlib::io::Dest::with_chunks(vec![chunk]);
+                let mut h = d.clone();
+                if let Err(e) = s.write_to(&mut h) {
+                    fail!("write-error", "write_to on a {}-byte-per-call destination: {}", chunk, err_str(&e));
+                }
+                ensure!(
+                    d.bytes() == buf,
+                    "size-mismatch",
+                    "{} {:?}: a destination accepting {} byte(s) per call received {} bytes, {} announced",
+                    c.ty.name(),
+                    lens,
+                    chunk,
+                    d.bytes().len(),
+                    announced
+                );
+            }
             // through the writer: content-length word == (size + 4) / 2
             let (shp, _) = match write_bytes(&[s.clone(), s.clone()], false, Finish::Drop) {
                 Ok(x) => x,
